@@ -1,4 +1,5 @@
 import ScnrVerif.Proofs.Equiv
+import ScnrVerif.Proofs.Minimize
 /-!
 # C03 — minimization preserves what is recognised
 
@@ -36,6 +37,28 @@ theorem pair_sound (T : List (List (Nat × Nat))) (A B : Dfa)
   · subst hw; exact hi rfl
   · exact closed_sound hc (reps_cover T A B) w hw
 
+/-! ## Track A: the Lean model of `minimizer.rs` itself
+
+`Model/Minimize.lean` mirrors `Minimizer::minimize` step by step; on every run it must reproduce the
+logged output of the real minimizer *exactly* (state numbering, accepting flags, transition order).
+`quotient_preserves`: for **every** automaton and every partition that covers the states, is
+disjoint, homogeneous and stable, the quotient built by `create_from_partition` accepts every word
+for the same terminals. `model_minimize_preserves`: hence the model of the whole minimizer preserves
+acceptance for every automaton whose final partition passes the executable check (run per logged
+automaton by `bin/check C03`; it fails only if the refinement loop ended in an unstable partition). -/
+
+theorem quotient_preserves (A : Dfa) (P : List (List Nat)) (hp : GoodPartition A P) (hn : 0 < A.trans.length)
+    (cm : Nat → Nat → Bool) (w : List Nat) (t : Nat) :
+    acceptsTid (createFromPartition A P) cm w t ↔ acceptsTid A cm w t :=
+  createFromPartition_preserves A P hp hn cm w t
+
+theorem model_minimize_preserves (A : Dfa) (hc : goodPartitionCheck A (finalPartition A) = true)
+    (hn : 0 < A.trans.length) (cm : Nat → Nat → Bool) (w : List Nat) (t : Nat) :
+    acceptsTid (minimize A) cm w t ↔ acceptsTid A cm w t := minimize_preserves A hc hn cm w t
+
+theorem partition_check_sound (A : Dfa) (P : List (List Nat)) (h : goodPartitionCheck A P = true) :
+    GoodPartition A P := goodPartitionCheck_sound A P h
+
 /-! Non-vacuity: `a|aa*` style automaton with two equivalent accepting states and its quotient. -/
 def exT : List (List (Nat × Nat)) := [[(97, 97)]]
 def exA : Dfa := { trans := [[(0, 1)], [(0, 2)], [(0, 2)]], ends := [(false, 0), (true, 0), (true, 0)], prio := [0] }
@@ -49,5 +72,9 @@ def exBad : Dfa := { trans := [[(0, 0)]], ends := [(true, 0)], prio := [0] }
 example : closedCheck (dfaSys exA (cmT exT)) (dfaSys exBad (cmT exT)) (mkReps exT) [0] [0] true
     ((explore (dfaSys exA (cmT exT)) (dfaSys exBad (cmT exT)) (mkReps exT) 50 [([0], [0])] []).getD []) = false := by
   decide
+
+example : minimize exA = exB := by decide
+example : goodPartitionCheck exA (finalPartition exA) = true := by decide
+example : finalPartition exA = [[0], [1, 2]] := by decide
 
 end Scnr.C03
